@@ -65,6 +65,15 @@ func BuildStaticWeightList(endpoints []endpoint.Endpoint) []int {
 		}
 	}
 
+	if maxWeight <= 0 {
+		// no endpoint has a positive weight: nothing to scale by (maxWeight == 0
+		// would divide by zero below), callers fall back to plain rotation
+		return nil
+	}
+	if totalCapacity < 0 {
+		// negative weights must not turn into a negative slice capacity
+		totalCapacity = 0
+	}
 	if minWeight > 0 {
 		maxRange = maxWeight / minWeight
 		if maxRange < minStaticWeightLimit {
